@@ -55,8 +55,11 @@ USES = {
     "alias-dict": (None, '$ad = {"k": 1}\n$bd = $ad\nmatch Ev1()\n($bd.update({"k": 2}))\nsend OutAlias(v=$ad["k"])'),
     # one LIST reachable through two variables (open finding C11-F25: lists are not reference-tracked by the encoder)
     "alias-list": (None, '$al = [1]\n$bl = $al\nmatch Ev1()\n($al.append(2))\nsend OutAliasL(v=$bl)'),
+    # a child flow that FAILS with a runtime error (before or after the cut); the failed instance stays reachable through $failref
+    "failing-child": (None, "start c11failer as $failref\nmatch Ev1()\nsend OutAfterFailure()"),
     "shared-context": (None, '$status = "initial"\n$ctxuid = uid()\nsend StartFlow(flow_id="ctxhelper", flow_instance_uid=$ctxuid, context=$self.context)\nmatch FlowStarted(flow_instance_uid=$ctxuid)\nmatch FlowFinished(flow_instance_uid=$ctxuid)\nsend OutShared(v=$status)'),
 }
+FAILER = {"name": "c11failer", "params": [], "loop": None, "body": [{"k": "raw", "text": "match Ev0()"}, {"k": "raw", "text": '$z = 1 + "a"'}, {"k": "raw", "text": "send NeverSentByFailer()"}]}
 CTXHELPER = {"name": "ctxhelper", "params": [], "loop": None, "body": [{"k": "raw", "text": "match Ev3()"}, {"k": "raw", "text": '$status = "updated by helper"'}]}
 
 
@@ -455,6 +458,9 @@ def build(case):
     prog = {"flows": [dict(f, body=list(f["body"])) for f in case["prog"]["flows"]]}
     if any(u[2] == "shared-context" for u in case["uses"]):
         prog["flows"].insert(0, dict(CTXHELPER))
+        case = dict(case, uses=[[u[0] + 1, u[1], u[2]] for u in case["uses"]])
+    if any(u[2] == "failing-child" for u in case["uses"]):
+        prog["flows"].insert(0, dict(FAILER))
         case = dict(case, uses=[[u[0] + 1, u[1], u[2]] for u in case["uses"]])
     needed = sorted({USES[u[2]][0] for u in case["uses"]} - {None})
     by_flow = {}
